@@ -107,19 +107,161 @@ def _returns_structured(body):
     return rec(body)
 
 
+class _Unstructured(Exception):
+    pass
+
+
+def _own_breaks(loop):
+    """`break` / `continue` statements that belong to this loop (not to a loop nested in it)."""
+    out = []
+
+    def rec(stmts):
+        for x in stmts:
+            if isinstance(x, (ast.Break, ast.Continue)):
+                out.append(x)
+            elif isinstance(x, (ast.For, ast.While, ast.AsyncFor, ast.FunctionDef, ast.AsyncFunctionDef, ast.ClassDef)):
+                if isinstance(x, (ast.For, ast.While, ast.AsyncFor)):
+                    rec(x.orelse)
+                continue
+            else:
+                for fld in ("body", "orelse", "finalbody"):
+                    sub = getattr(x, fld, None)
+                    if isinstance(sub, list) and sub and isinstance(sub[0], ast.stmt):
+                        rec(sub)
+                if isinstance(x, ast.Try):
+                    for h in x.handlers:
+                        rec(h.body)
+    rec(loop.body)
+    return out
+
+
+def _returns_to_breaks(stmts, conv):
+    """Inside a loop body: `return e` -> conv(return) + break.  Nested loops holding a return are not handled."""
+    out = []
+    for s in stmts:
+        if isinstance(s, ast.Return):
+            out.extend(conv(s))
+            out.append(ast.copy_location(ast.Break(), s))
+            return out
+        if isinstance(s, (ast.FunctionDef, ast.AsyncFunctionDef, ast.ClassDef)) or not _returns([s]):
+            out.append(s)
+            continue
+        if isinstance(s, (ast.For, ast.While, ast.AsyncFor)):
+            raise _Unstructured("return inside a nested loop")
+        if isinstance(s, ast.Try) and _returns(s.finalbody):
+            raise _Unstructured("return inside finally")
+        for fld in ("body", "orelse", "finalbody"):
+            sub = getattr(s, fld, None)
+            if isinstance(sub, list) and sub and isinstance(sub[0], ast.stmt):
+                setattr(s, fld, _returns_to_breaks(sub, conv))
+        if isinstance(s, ast.Try):
+            for h in s.handlers:
+                h.body = _returns_to_breaks(h.body, conv)
+        out.append(s)
+    return out
+
+
 def _eliminate_returns(stmts, conv, cont):
-    """stmts followed by cont, with `return` replaced by conv(return) and the rest skipped."""
+    """stmts followed by cont, with `return` replaced by conv(return) and the rest skipped.  Exact rewritings only:
+    if/else (the continuation moves into the arms that fall through), try (the continuation moves into the else clause
+    and the handlers that fall through - it was outside the try, where no handler of it applies, and so it is there),
+    with in tail position, loops without break (return -> break, the continuation becomes the loop's else clause).
+    Raises _Unstructured for anything else."""
     if not stmts:
         return [_copy(x) for x in cont]
     s, rest = stmts[0], stmts[1:]
     if isinstance(s, ast.Return):
         return conv(s)
-    if isinstance(s, ast.If) and _returns([s]):
+    if isinstance(s, (ast.FunctionDef, ast.AsyncFunctionDef, ast.ClassDef)) or not _returns([s]):
+        return [s] + _eliminate_returns(rest, conv, cont)
+    if isinstance(s, ast.If):
         k = _eliminate_returns(rest, conv, cont)
         s.body = _eliminate_returns(s.body, conv, k) or [ast.copy_location(ast.Pass(), s)]
         s.orelse = _eliminate_returns(s.orelse, conv, k)
         return [s]
-    return [s] + _eliminate_returns(rest, conv, cont)
+    if isinstance(s, ast.Try):
+        if _returns(s.finalbody):
+            raise _Unstructured("return inside finally")
+        k = _eliminate_returns(rest, conv, cont)
+        if k and s.finalbody:
+            raise _Unstructured("statements after a try/finally that returns")
+        if _returns(s.body) and (s.orelse or k):
+            # a return in the body skips the else clause and the continuation.  When the body never falls off its end
+            # (it always returns or raises) the continuation is only reachable through the handlers: it goes there.
+            if s.orelse or not _always_leaves(s.body):
+                raise _Unstructured("return inside a try body that is followed by something")
+            s.body = _eliminate_returns(s.body, conv, [])
+            for h in s.handlers:
+                h.body = _eliminate_returns(h.body, conv, k) or [ast.copy_location(ast.Pass(), h)]
+            return [s]
+        if _returns(s.body):
+            s.body = _eliminate_returns(s.body, conv, [])
+        for h in s.handlers:
+            h.body = _eliminate_returns(h.body, conv, k) or [ast.copy_location(ast.Pass(), h)]
+        if s.orelse or k:
+            s.orelse = _eliminate_returns(s.orelse, conv, k)
+        return [s]
+    if isinstance(s, (ast.With, ast.AsyncWith)):
+        k = _eliminate_returns(rest, conv, cont)
+        if k:
+            raise _Unstructured("return inside a with block that is followed by something")
+        s.body = _eliminate_returns(s.body, conv, []) or [ast.copy_location(ast.Pass(), s)]
+        return [s]
+    if isinstance(s, (ast.For, ast.While)):
+        if _returns(s.orelse) and not _returns(s.body):
+            k = _eliminate_returns(rest, conv, cont)
+            if any(isinstance(b, ast.Break) for b in _own_breaks(s)) and k:
+                raise _Unstructured("loop with break and a returning else clause")
+            s.orelse = _eliminate_returns(s.orelse, conv, k)
+            return [s]
+        if any(isinstance(b, ast.Break) for b in _own_breaks(s)):
+            raise _Unstructured("return inside a loop that also has break")
+        s.body = _returns_to_breaks(s.body, conv)
+        tail = _eliminate_returns(list(s.orelse) + rest, conv, cont)
+        s.orelse = tail
+        return [s]
+    raise _Unstructured(type(s).__name__)
+
+
+def _always_leaves(stmts):
+    """the statement list never falls off its end: it ends in return / raise, or in an if whose arms all do"""
+    if not stmts:
+        return False
+    last = stmts[-1]
+    if isinstance(last, (ast.Return, ast.Raise)):
+        return True
+    if isinstance(last, ast.If):
+        return _always_leaves(last.body) and _always_leaves(last.orelse)
+    return False
+
+
+def _ladder_expression(body, budget=None):
+    """A body that is a ladder of `if c: return a` ... `return z` (if / else / return / pass only) as the conditional
+    expression evaluating the same sub-expressions in the same order; None if the body is anything else."""
+    budget = budget if budget is not None else [24]
+    if body and isinstance(body[0], ast.Expr) and isinstance(body[0].value, ast.Constant) and isinstance(body[0].value.value, str):
+        body = body[1:]
+
+    def conv(stmts):
+        budget[0] -= 1
+        if budget[0] < 0:
+            return None
+        stmts = [x for x in stmts if not isinstance(x, ast.Pass)]
+        if not stmts:
+            return ast.Constant(value=None)
+        s0 = stmts[0]
+        if isinstance(s0, ast.Return):
+            return _copy(s0.value) if s0.value is not None else ast.Constant(value=None)
+        if isinstance(s0, ast.If):
+            a = conv(list(s0.body) + stmts[1:])
+            b = conv(list(s0.orelse) + stmts[1:])
+            if a is None or b is None:
+                return None
+            return ast.IfExp(test=_copy(s0.test), body=a, orelse=b)
+        return None
+    if not body:
+        return None
+    return conv(list(body))
 
 
 _SIMPLE = (ast.Name, ast.Constant)
@@ -204,6 +346,15 @@ class Inliner:
             return None, None
         if isinstance(fn, ast.Name):
             mod = caller.module
+            # a closure defined (once, as a statement of its own) in the function being expanded, called from that function:
+            # its free variables are the caller's variables at the call, which is what the expanded body reads
+            q = "%s.%s" % (self.f.qual, fn.id)
+            cl = self.p.functions.get(q)
+            if cl is not None and caller is self.f:
+                defs = [x for x in walk_own(self.f.node) if isinstance(x, (ast.FunctionDef, ast.AsyncFunctionDef)) and x.name == fn.id]
+                stores = [x for x in walk_own(self.f.node) if isinstance(x, ast.Name) and x.id == fn.id and isinstance(x.ctx, (ast.Store, ast.Del))]
+                if len(defs) == 1 and not stores and fn.id not in self.f.params and any(x is defs[0] for x in self.f.node.body):
+                    return cl, None
             if fn.id in _bound_names(caller.node) or fn.id in caller.params:
                 return None, None
             g = mod.functions.get(fn.id)
@@ -230,6 +381,8 @@ class Inliner:
             if isinstance(x, (ast.Global, ast.Nonlocal)):
                 return False
         if callee.nested:
+            return False  # functions nested in it would capture its locals, which are renamed on expansion
+        if callee.parent is not None and callee.parent is not self.f:
             return False
         return self.pred(callee)
 
@@ -268,7 +421,9 @@ class Inliner:
             else:
                 locals_.add(pn)
         for ln in sorted(locals_):
-            if ln in caller_names:
+            # (a parameter bound by a prelude assignment always gets a name of its own: a helper expanded several times
+            # then leaves one single-use temporary per expansion, which the later passes fold into its use)
+            if ln in caller_names or (ln in actual and ln not in mapping and ln not in rebound):
                 self.count += 1
                 rename[ln] = "%s__%s%d" % (ln, callee.name.strip("_"), self.count)
         for pn, e in actual.items():
@@ -297,8 +452,67 @@ class Inliner:
             body = self.block(body, callee, caller_names | _all_names(callee.node), stack + [callee.qual])
         return prelude + body
 
+    def expand_generator_loop(self, st, caller, names, stack):
+        """`for x in gen(args): BODY` with gen an inlinable generator helper whose yields are plain `yield E` statements:
+        the generator's body with every `yield E` replaced by `x = E; BODY`.  Exact when BODY has no break / continue of
+        this loop (they would have to steer the generator) and the loop has no else clause: the consumer runs exactly
+        between the generator's steps, which is where its statements now stand."""
+        if not (isinstance(st, ast.For) and not st.orelse and isinstance(st.iter, ast.Call) and isinstance(st.target, (ast.Name, ast.Tuple))):
+            return None
+        call = st.iter
+        callee, recv = self.resolve(call, caller)
+        if callee is None or not callee.is_generator:
+            return None
+        n = callee.node
+        if callee.qual in stack + [self.f.qual] or [d for d in callee.decorators if d != "staticmethod"] or n.args.vararg or n.args.kwarg or n.args.posonlyargs or callee.nested \
+                or (callee.parent is not None and callee.parent is not self.f) or not self.pred(callee):
+            return None
+        if any(isinstance(a, ast.Starred) for a in call.args) or any(k.arg is None for k in call.keywords):
+            return None
+        yields = [x for x in walk_own(n) if isinstance(x, (ast.Yield, ast.YieldFrom))]
+        ystmts = [x for x in walk_own(n) if isinstance(x, ast.Expr) and isinstance(x.value, ast.Yield) and x.value.value is not None]
+        if not yields or len(yields) != len(ystmts) or len(yields) > 3 or any(isinstance(x, ast.YieldFrom) for x in yields):
+            return None
+        if any(isinstance(x, ast.Return) and x.value is not None for x in walk_own(n)) or any(isinstance(x, (ast.Global, ast.Nonlocal)) for x in walk_own(n)):
+            return None
+        if any(isinstance(x, ast.Try) and any(isinstance(y, ast.Yield) for y in ast.walk(x)) for x in walk_own(n)):
+            return None  # a yield inside try: closing the generator early would run handlers / finally
+        if _own_breaks(st):
+            return None
+        body = self.body_of(callee, call, recv, names, stack)
+        if body is None:
+            return None
+        target, consumer = st.target, st.body
+
+        class Y(ast.NodeTransformer):
+            def visit_FunctionDef(self, node):
+                return node
+            visit_AsyncFunctionDef = visit_FunctionDef
+            visit_Lambda = visit_FunctionDef
+
+            def visit_Expr(self, node):
+                if isinstance(node.value, ast.Yield):
+                    a = ast.copy_location(ast.Assign(targets=[_copy(target)], value=node.value.value, type_comment=None), node)
+                    return [a] + [_copy(x) for x in consumer]
+                return node
+        wrapper = ast.Module(body=body, type_ignores=[])
+        Y().visit(wrapper)
+        out = wrapper.body
+        # `return` in a generator ends the iteration: only in tail position can it simply fall off
+        try:
+            out = _eliminate_returns(out, lambda r: [], [])
+        except _Unstructured:
+            return None
+        for x in out:
+            ast.fix_missing_locations(x)
+        self.expanded.append(callee.qual)
+        return out or [ast.copy_location(ast.Pass(), st)]
+
     def expand_stmt(self, st, caller, names, stack):
         """Replacement statement list for st, or None."""
+        g_rep = self.expand_generator_loop(st, caller, names, stack)
+        if g_rep is not None:
+            return g_rep
         call = None
         mode = None
         if isinstance(st, ast.Expr) and isinstance(st.value, ast.Call):
@@ -321,11 +535,10 @@ class Inliner:
         elif mode == "assign":
             if not (isinstance(last, ast.Return) and last.value is not None and all(r is last for r in rets)):
                 structured = True
-            if not (isinstance(st.targets[0], ast.Name)):
+            tg0 = st.targets[0]
+            if not (isinstance(tg0, ast.Name) or (isinstance(tg0, ast.Tuple) and all(isinstance(e, ast.Name) for e in tg0.elts))):
                 if structured:
                     return None
-        if structured and not _returns_structured(callee.node.body):
-            return None
         body = self.body_of(callee, call, recv, names, stack)
         if body is None:
             return None
@@ -333,22 +546,24 @@ class Inliner:
             # early returns under if/else only: `return e` becomes `target = e` (or nothing) and the statements that
             # would have followed move into the branches that fall through
             if mode == "assign":
-                tname = st.targets[0].id
+                target = st.targets[0]
 
                 def conv(r):
                     v = r.value if r.value is not None else ast.copy_location(ast.Constant(value=None), r)
-                    tg = ast.copy_location(ast.Name(id=tname, ctx=ast.Store()), r)
+                    tg = _copy(target)
                     return [ast.copy_location(ast.Assign(targets=[tg], value=v, type_comment=None), r)]
                 none = ast.copy_location(ast.Constant(value=None), st)
-                tg0 = ast.copy_location(ast.Name(id=tname, ctx=ast.Store()), st)
-                cont = [ast.copy_location(ast.Assign(targets=[tg0], value=none, type_comment=None), st)]
+                cont = [ast.copy_location(ast.Assign(targets=[_copy(target)], value=none, type_comment=None), st)]
             else:
                 def conv(r):
                     if r.value is not None and not _simple(r.value):
                         return [ast.copy_location(ast.Expr(value=r.value), r)]
                     return []
                 cont = []
-            body = _eliminate_returns(body, conv, cont) or [ast.copy_location(ast.Pass(), st)]
+            try:
+                body = _eliminate_returns(body, conv, cont) or [ast.copy_location(ast.Pass(), st)]
+            except _Unstructured:
+                return None
             self.expanded.append(callee.qual)
             return body
         if mode == "stmt":
@@ -404,12 +619,219 @@ class Inliner:
                 break
         return pre
 
+    # -- helpers used inside expressions --------------------------------------------
+    def ladder_call(self, call, caller, stack):
+        """The conditional expression equal to `call` when the callee is an eligible helper whose body is a ladder of
+        if/return (evaluates the same sub-expressions in the same order as the call did), else None."""
+        callee, recv = self.resolve(call, caller)
+        if callee is None or not self.eligible(callee, call, stack + [self.f.qual]):
+            return None
+        e = _ladder_expression(callee.node.body)
+        if e is None:
+            return None
+        a = callee.node.args
+        params = [x.arg for x in a.args]
+        args = ([recv] if recv is not None else []) + list(call.args)
+        if len(args) > len(params):
+            return None
+        actual = dict(zip(params, args))
+        for k in call.keywords:
+            if k.arg in actual or k.arg not in params + [x.arg for x in a.kwonlyargs]:
+                return None
+            actual[k.arg] = k.value
+        for pn in params + [x.arg for x in a.kwonlyargs]:
+            if pn not in actual:
+                d = callee.defaults.get(pn)
+                if d is None or not isinstance(d, ast.Constant):
+                    return None
+                actual[pn] = d
+        has_call = any(isinstance(x, (ast.Call, ast.Await, ast.Yield, ast.YieldFrom, ast.NamedExpr)) for x in ast.walk(e))
+        uses = {}
+        for x in ast.walk(e):
+            if isinstance(x, ast.Name) and x.id in actual:
+                uses[x.id] = uses.get(x.id, 0) + 1
+                if not isinstance(x.ctx, ast.Load):
+                    return None
+        for pn, v in actual.items():
+            if isinstance(v, (ast.Name, ast.Constant)):
+                continue
+            # an attribute chain is read where the parameter is read: the same value unless a call in the ladder runs in
+            # between; any other argument expression must have been evaluated exactly once, first
+            if _simple(v) and not has_call:
+                continue
+            return None
+        # names of the helper's module must mean the same here
+        if callee.module is not caller.module:
+            free = {x.id for x in ast.walk(e) if isinstance(x, ast.Name)} - set(actual)
+            import builtins as _b
+            for nm in free:
+                if hasattr(_b, nm) and nm not in callee.module.globals and nm not in callee.module.functions and nm not in callee.module.imports:
+                    continue
+                return None
+        sub = _Subst({k: v for k, v in actual.items()}, {})
+        e = sub.visit(e)
+        ast.copy_location(e, call)
+        for x in ast.walk(e):
+            if not hasattr(x, "lineno"):
+                ast.copy_location(x, call)
+        ast.fix_missing_locations(e)
+        self.expanded.append(callee.qual)
+        return e
+
+    def rewrite_expr(self, e, caller, stack, top=True):
+        """e with ladder-helper calls replaced (not the call that *is* the statement's value: expand_stmt takes that)."""
+        if isinstance(e, (ast.Lambda, ast.ListComp, ast.SetComp, ast.DictComp, ast.GeneratorExp)):
+            return e
+        if isinstance(e, ast.Call) and not top:
+            r = self.ladder_call(e, caller, stack)
+            if r is not None:
+                return self.rewrite_expr(r, caller, stack, False)
+        if top and isinstance(e, ast.Call):
+            # the arguments of the call that *is* the statement are hoisted into temporaries (hoist) and expanded as
+            # statements: an if/else there reads better than a conditional expression here
+            return e
+        for fld, v in ast.iter_fields(e):
+            if isinstance(v, ast.expr):
+                setattr(e, fld, self.rewrite_expr(v, caller, stack, False))
+            elif isinstance(v, list):
+                for i, x in enumerate(v):
+                    if isinstance(x, ast.expr):
+                        v[i] = self.rewrite_expr(x, caller, stack, False)
+                    elif isinstance(x, ast.keyword):
+                        x.value = self.rewrite_expr(x.value, caller, stack, False)
+        return e
+
+    def rewrite_stmt_exprs(self, st, caller, stack):
+        if isinstance(st, (ast.If, ast.While, ast.Assert)):
+            st.test = self.rewrite_expr(st.test, caller, stack, False)
+        elif isinstance(st, (ast.Assign, ast.AugAssign, ast.AnnAssign, ast.Return, ast.Expr)) and getattr(st, "value", None) is not None:
+            st.value = self.rewrite_expr(st.value, caller, stack, True)
+        elif isinstance(st, ast.For):
+            st.iter = self.rewrite_expr(st.iter, caller, stack, False)
+
+    def hoist_test(self, st, caller, names, stack):
+        """`if h(...):` with h an inlinable helper that is not a ladder -> `t = h(...); if t:` - exact when the call is
+        the first thing the test evaluates, unconditionally."""
+        if not isinstance(st, ast.If):
+            return []
+
+        def first(e):
+            # (parent setter, call) of the expression evaluated first
+            if isinstance(e, ast.Call):
+                return e
+            if isinstance(e, ast.UnaryOp) and isinstance(e.op, ast.Not):
+                return first(e.operand)
+            if isinstance(e, ast.BoolOp):
+                return first(e.values[0])
+            if isinstance(e, ast.Compare):
+                return first(e.left)
+            return None
+        c = first(st.test)
+        if c is None or not all(_simple(a) for a in c.args) or not all(_simple(k.value) for k in c.keywords) or not _simple(c.func):
+            return []
+        callee, recv = self.resolve(c, caller)
+        if callee is None or not self.eligible(callee, c, stack + [self.f.qual]):
+            return []
+        self.count += 1
+        nm = "%s__test%d" % (callee.name.strip("_"), self.count)
+        while nm in names:
+            self.count += 1
+            nm = "%s__test%d" % (callee.name.strip("_"), self.count)
+        if isinstance(names, set):
+            names.add(nm)
+        tgt = ast.copy_location(ast.Name(id=nm, ctx=ast.Store()), c)
+        pre = ast.copy_location(ast.Assign(targets=[tgt], value=c, type_comment=None), st)
+        ref = ast.copy_location(ast.Name(id=nm, ctx=ast.Load()), c)
+
+        class R(ast.NodeTransformer):
+            def visit_Call(self, node):
+                return ref if node is c else self.generic_visit(node)
+        st.test = R().visit(st.test)
+        return [pre]
+
+    def split_and_test(self, st, caller, stack):
+        """`if A and h(...) [and R]: B else: E` with h an inlinable helper -> `if A: (if h(...) [and R]: B else: E) else: E`
+        so that the call becomes the first thing its own test evaluates (then hoist_test applies).  Exact: E is copied."""
+        if not (isinstance(st, ast.If) and isinstance(st.test, ast.BoolOp) and isinstance(st.test.op, ast.And)):
+            return st
+        vals = st.test.values
+
+        def lead(e):
+            if isinstance(e, ast.Call):
+                return e
+            if isinstance(e, ast.UnaryOp) and isinstance(e.op, ast.Not):
+                return lead(e.operand)
+            if isinstance(e, ast.Compare):
+                return lead(e.left)
+            return None
+        for i in range(1, len(vals)):
+            c = lead(vals[i])
+            if c is None:
+                continue
+            callee, recv = self.resolve(c, caller)
+            if callee is None or not self.eligible(callee, c, stack + [self.f.qual]) or _ladder_expression(callee.node.body) is not None:
+                continue
+            if sum(1 for _ in ast.walk(ast.Module(body=st.orelse, type_ignores=[]))) > 60:
+                return st
+            head = vals[:i]
+            tail = vals[i:]
+            inner = ast.copy_location(ast.If(test=tail[0] if len(tail) == 1 else ast.copy_location(ast.BoolOp(op=ast.And(), values=tail), tail[0]),
+                                             body=st.body, orelse=[_copy(x) for x in st.orelse]), st)
+            st.test = head[0] if len(head) == 1 else ast.copy_location(ast.BoolOp(op=ast.And(), values=head), head[0])
+            st.body = [inner]
+            return st
+        return st
+
+    def comprehension_to_loop(self, st, caller, names, stack):
+        """`T = [E for v in XS if C]` whose E calls an inlinable helper -> `T = []; for v': ...: if C: T.append(E)` (v renamed
+        to a fresh name: a comprehension does not leak its variable).  Exact; lets the helper be expanded."""
+        if not (isinstance(st, ast.Assign) and len(st.targets) == 1 and isinstance(st.targets[0], ast.Name) and isinstance(st.value, ast.ListComp) and len(st.value.generators) == 1):
+            return None
+        comp = st.value
+        gen = comp.generators[0]
+        if gen.is_async or not isinstance(gen.target, ast.Name):
+            return None
+        hit = False
+        for c in ast.walk(comp.elt):
+            if isinstance(c, ast.Call):
+                callee, recv = self.resolve(c, caller)
+                if callee is not None and self.eligible(callee, c, stack + [self.f.qual]):
+                    hit = True
+        tname = st.targets[0].id
+        if not hit or any(isinstance(x, ast.Name) and x.id == tname for x in ast.walk(comp)):
+            return None
+        v = gen.target.id
+        self.count += 1
+        nv = v if v not in names else "%s__c%d" % (v, self.count)
+        if isinstance(names, set):
+            names.add(nv)
+        sub = _Subst({}, {v: nv})
+        elt = sub.visit(_copy(comp.elt))
+        ifs = [sub.visit(_copy(x)) for x in gen.ifs]
+        init = ast.copy_location(ast.Assign(targets=[ast.copy_location(ast.Name(id=tname, ctx=ast.Store()), st)], value=ast.copy_location(ast.List(elts=[], ctx=ast.Load()), st), type_comment=None), st)
+        app = ast.copy_location(ast.Expr(value=ast.copy_location(ast.Call(func=ast.copy_location(ast.Attribute(value=ast.copy_location(ast.Name(id=tname, ctx=ast.Load()), st), attr="append", ctx=ast.Load()), st),
+                                                                       args=[elt], keywords=[]), st)), st)
+        inner = [app]
+        for c in reversed(ifs):
+            inner = [ast.copy_location(ast.If(test=c, body=inner, orelse=[]), st)]
+        loop = ast.copy_location(ast.For(target=ast.copy_location(ast.Name(id=nv, ctx=ast.Store()), st), iter=gen.iter, body=inner, orelse=[], type_comment=None), st)
+        ast.fix_missing_locations(init)
+        ast.fix_missing_locations(loop)
+        return [init, loop]
+
     def block(self, body, caller, names, stack):
         out = []
-        body = list(body)
+        body0 = list(body)
+        body = []
+        for st in body0:
+            rep = self.comprehension_to_loop(st, caller, names, stack)
+            body.extend(rep if rep is not None else [st])
+        for st in body:
+            self.rewrite_stmt_exprs(st, caller, stack)
+            self.split_and_test(st, caller, stack)
         k = 0
         while k < len(body):
-            pre = self.hoist(body[k], caller, names, stack)
+            pre = self.hoist(body[k], caller, names, stack) + self.hoist_test(body[k], caller, names, stack)
             if pre:
                 body[k:k] = pre
             k += len(pre) + 1
@@ -491,6 +913,10 @@ class _Snap:
         self.keep_names = set(keep_names)
         self.stable = stable or (lambda attr: False)
         self.binds = {}
+        self.escaping = set()  # names some nested scope can re-bind
+        for n in ast.walk(fnode):
+            if isinstance(n, (ast.Global, ast.Nonlocal)):
+                self.escaping.update(n.names)
         for n in walk_own(fnode):
             if isinstance(n, ast.Name) and isinstance(n.ctx, (ast.Store, ast.Del)):
                 self.binds[n.id] = self.binds.get(n.id, 0) + 1
@@ -515,10 +941,16 @@ class _Snap:
             if self.binds.get(e.id, 0) <= (0 if e.id in self.params else 1):
                 reads.append(("name", e.id, True))
                 return True
+            if e.id not in self.escaping and getattr(self, "flow_names", True):
+                # re-bound somewhere in this function: fine as long as no store to it lies between the snapshot and the
+                # use - kills() drops the snapshot at every such store
+                reads.append(("name", e.id, True))
+                reads.append(("rebound", e.id, True))
+                return True
             return False
         if isinstance(e, ast.Attribute):
             base, chain = _chain(e)
-            if isinstance(base, ast.Name) and self.pure(base, []):
+            if isinstance(base, ast.Name) and self.binds.get(base.id, 0) <= (0 if base.id in self.params else 1) and self.pure(base, []):
                 for a in chain:
                     reads.append(("attr", a, not (self.stable(a) or "adj" in chain[:-1])))
                 return True
@@ -579,21 +1011,52 @@ class _Snap:
         if not env:
             return dead
         stores_attr, stores_sub, call = set(), set(), False
+        stores_name = set()
         for x in ast.walk(node):
+            if isinstance(x, ast.Name) and isinstance(x.ctx, (ast.Store, ast.Del)):
+                stores_name.add(x.id)
+            elif isinstance(x, ast.ExceptHandler) and x.name:
+                stores_name.add(x.name)
             if isinstance(x, ast.Attribute) and isinstance(x.ctx, (ast.Store, ast.Del)):
                 stores_attr.add(x.attr)
             elif isinstance(x, ast.Subscript) and isinstance(x.ctx, (ast.Store, ast.Del)):
                 stores_sub.add(ast.unparse(x.value))
-            elif isinstance(x, ast.Call) and not self._logging(x):
+            elif isinstance(x, ast.Call) and not self._logging(x) and not self._fresh_container_call(x):
                 call = True
             elif isinstance(x, ast.AugAssign) and isinstance(x.target, ast.Attribute):
                 stores_attr.add(x.target.attr)
         for nm, (rhs, reads) in env.items():
             for (k, what, vol) in reads:
-                if (k == "attr" and what in stores_attr) or (k == "sub" and what in stores_sub) or (call and vol and k != "name") \
-                        or (call and k == "name" and self._mutable_use(rhs, what)):
+                if (k == "attr" and what in stores_attr) or (k == "sub" and what in stores_sub) or (call and vol and k not in ("name", "rebound")) \
+                        or (call and k == "name" and self._mutable_use(rhs, what)) or (k == "rebound" and what in stores_name):
                     dead.add(nm)
         return dead
+
+    _CONTAINER_METHODS = ("remove", "add", "append", "discard", "extend", "clear", "insert", "update", "pop")
+
+    def _fresh_container_call(self, call):
+        """`v.remove("X")` and the like on a local that only ever holds containers created in this function (set(...),
+        displays, comprehensions, differences of such), with constant arguments: it changes that container and nothing
+        a snapshot of *other* names can have read."""
+        f = call.func
+        if not (isinstance(f, ast.Attribute) and f.attr in self._CONTAINER_METHODS and isinstance(f.value, ast.Name) and not call.keywords
+                and all(isinstance(a, ast.Constant) for a in call.args)):
+            return False
+        v = f.value.id
+        if v in self.params:
+            return False
+
+        def fresh(e):
+            if isinstance(e, (ast.List, ast.Set, ast.Dict, ast.ListComp, ast.SetComp, ast.DictComp)):
+                return True
+            if isinstance(e, ast.Call) and isinstance(e.func, ast.Name) and e.func.id in ("set", "list", "dict", "frozenset", "sorted") and not e.keywords:
+                return True
+            if isinstance(e, ast.BinOp) and isinstance(e.op, (ast.Sub, ast.BitOr, ast.BitAnd, ast.Add)):
+                return True  # a new object either way for the builtin containers
+            return False
+        bs = [n for n in walk_own(self.fn) if isinstance(n, ast.Assign) and any(isinstance(t, ast.Name) and t.id == v for t in n.targets)]
+        nstores = sum(1 for n in walk_own(self.fn) if isinstance(n, ast.Name) and n.id == v and isinstance(n.ctx, (ast.Store, ast.Del)))
+        return bool(bs) and nstores == len(bs) and all(len(b.targets) == 1 and fresh(b.value) for b in bs)
 
     @staticmethod
     def _mutable_use(rhs, name):
@@ -619,12 +1082,14 @@ class _Snap:
         return bool(stmts) and isinstance(stmts[-1], (ast.Raise, ast.Return, ast.Break, ast.Continue))
 
     def _continuing_parts(self, s):
+        """the parts of s after which control can reach the statement following s (an arm that always leaves - raise /
+        return / break / continue - cannot affect what follows); nested ifs are taken apart the same way"""
         if isinstance(s, ast.If):
             parts = [s.test]
-            if not self._leaves(s.body):
-                parts.extend(s.body)
-            if not self._leaves(s.orelse):
-                parts.extend(s.orelse)
+            for arm in (s.body, s.orelse):
+                if not self._leaves(arm):
+                    for x in arm:
+                        parts.extend(self._continuing_parts(x))
             return parts
         return [s]
 
@@ -712,6 +1177,7 @@ def _captured_conditions(func):
     if par is None:
         return {}
     ps = _Snap(par.node)
+    ps.flow_names = False  # the closure runs at some later time: only never-rebound names are safe
     mine = _Snap(func.node)
     out = {}
     used = {n.id for n in ast.walk(func.node) if isinstance(n, ast.Name) and isinstance(n.ctx, ast.Load)}
@@ -733,7 +1199,9 @@ def _captured_conditions(func):
                 continue
             # the definition must be at the top level of the enclosing function, before the closure is defined
             body = par.node.body
-            if n in body and func.node in body and body.index(n) < body.index(func.node):
+            # (func.node may be a rewritten copy of the definition: the statement is found by name)
+            mine_at = [i for i, x in enumerate(body) if isinstance(x, (ast.FunctionDef, ast.AsyncFunctionDef)) and x.name == func.node.name]
+            if n in body and len(mine_at) == 1 and body.index(n) < mine_at[0]:
                 out[nm] = (n.value, [])
     return out
 
@@ -970,6 +1438,12 @@ def alpha_normalise(func, table):
                         and isinstance(n.value, ast.Name) and n.value.id != n.targets[0].id and _merge_safe(cur, n.targets[0].id, n.value.id):
                     hit = (n.targets[0].id, n.value.id)
                     break
+                # ... and result copies (`total = total__h1`): the helper's local and the caller's are one variable when
+                # their live ranges do not overlap
+                if isinstance(n, ast.Assign) and len(n.targets) == 1 and isinstance(n.targets[0], ast.Name) and isinstance(n.value, ast.Name) and "__" in n.value.id \
+                        and "__" not in n.targets[0].id and n.value.id != n.targets[0].id and _merge_safe(cur, n.value.id, n.targets[0].id):
+                    hit = (n.value.id, n.targets[0].id)
+                    break
             if hit is None:
                 break
             if node is None:
@@ -1027,6 +1501,23 @@ def alpha_normalise(func, table):
                 done = True
     if node is None:
         return func, {}
+    # copies between two locals that have become one variable
+    def _drop_self_copies(body):
+        out = []
+        for st in body:
+            if isinstance(st, ast.Assign) and len(st.targets) == 1 and isinstance(st.targets[0], ast.Name) and isinstance(st.value, ast.Name) and st.targets[0].id == st.value.id \
+                    and st.value.id in renames.values():
+                continue
+            for fld in ("body", "orelse", "finalbody"):
+                sub = getattr(st, fld, None)
+                if isinstance(sub, list) and sub and isinstance(sub[0], ast.stmt) and not isinstance(st, (ast.FunctionDef, ast.AsyncFunctionDef, ast.ClassDef)):
+                    setattr(st, fld, _drop_self_copies(sub) or ([ast.copy_location(ast.Pass(), st)] if fld == "body" else []))
+            if isinstance(st, ast.Try):
+                for h in st.handlers:
+                    h.body = _drop_self_copies(h.body) or [ast.copy_location(ast.Pass(), h)]
+            out.append(st)
+        return out
+    node.body = _drop_self_copies(node.body) or [ast.copy_location(ast.Pass(), node)]
     ast.fix_missing_locations(node)
     nf = Func(func.qual, node, func.module, func.cls, func.parent)
     nf.inlined_from = list(getattr(func, "inlined_from", []))
@@ -1296,8 +1787,33 @@ def split_conditional_expressions(func):
             return n
     OrForm().visit(node)
 
+    def leading(e):
+        """(parent, field) of a conditional expression that is the first thing `e` evaluates, nested as the receiver /
+        callee / left operand / subscripted value; None if there is none."""
+        for fld in {ast.Call: ("func",), ast.Attribute: ("value",), ast.BinOp: ("left",), ast.Compare: ("left",), ast.Subscript: ("value",)}.get(type(e), ()):
+            sub = getattr(e, fld)
+            if isinstance(sub, ast.IfExp):
+                return (e, fld)
+            return leading(sub)
+        return None
+
     def conv(s):
         v = getattr(s, "value", None)
+        if isinstance(s, (ast.Return, ast.Expr)) and v is not None and not isinstance(v, ast.IfExp):
+            # `return (A if c else B).m()` -> `if c: return A.m()  else: return B.m()`
+            ld = leading(v)
+            if ld is not None:
+                par, fld = ld
+                ie = getattr(par, fld)
+                setattr(par, fld, ie.body)
+                a = _copy(s)
+                setattr(par, fld, ie.orelse)
+                b = _copy(s)
+                setattr(par, fld, ie)
+                new = ast.If(test=ie.test, body=block([a]), orelse=block([b]))
+                ast.copy_location(new, s)
+                changed[0] = True
+                return new
         if isinstance(s, (ast.Assign, ast.Return, ast.Expr)) and isinstance(v, ast.IfExp):
             def simple_target(t):
                 # the target's own sub-expressions are evaluated after the value either way; with names and constants
@@ -1760,6 +2276,413 @@ def expand_attribute_aliases(func, keep_names, may_write):
             sub = getattr(n, fld, None)
             if isinstance(sub, list) and fld == "body" and not sub and isinstance(n, (ast.If, ast.For, ast.While, ast.With, ast.Try, ast.FunctionDef)):
                 sub.append(ast.Pass())
+    ast.fix_missing_locations(node)
+    nf = Func(func.qual, node, func.module, func.cls, func.parent)
+    nf.inlined_from = list(getattr(func, "inlined_from", []))
+    return nf
+
+
+# ---------------------------------------------------------------------------
+# while True: if X: break; body   ->   while not X: body
+# ---------------------------------------------------------------------------
+def thread_exit_flags(func, module_globals=None, sentinel_ok=None):
+    """Jump threading for a decision that is taken inside a `with` / `try-finally` block and acted upon right after it:
+
+        with L:                              with L:
+            ...                                  ...
+            [v = C]                              if C: A; break
+            if C: A [v = K1]         ->          else: B
+            else: B [v = E]                  REST
+        if T(v): break   (continue / return)
+        REST
+
+    T(v) is `v`, `not v`, `v is S` or `v is not S`.  Its outcome at the end of each arm must be known and differ: v bound
+    just before the inner `if` to the very condition that `if` tests (nothing in the arms re-binds it), or bound in the
+    arms to constants / to the sentinel S / to something that cannot be S (sentinel_ok(S) says that S never escapes).
+    Exact: the leaving statement runs after the block's exit actions either way (`break` inside `with` / `try-finally`
+    runs `__exit__` / the finally clause first), and nothing else lies between the inner `if` and the test."""
+    sentinel_ok = sentinel_ok or (lambda name: False)
+    changed = [False]
+
+    def leaving(stmts):
+        return bool(stmts) and all(isinstance(x, (ast.Break, ast.Continue)) or (isinstance(x, ast.Return) and (x.value is None or isinstance(x.value, (ast.Constant, ast.Name)))) for x in stmts) \
+            and len(stmts) == 1
+
+    def parse_test(t):
+        sense = True
+        while isinstance(t, ast.UnaryOp) and isinstance(t.op, ast.Not):
+            sense = not sense
+            t = t.operand
+        if isinstance(t, ast.Name):
+            return (t.id, None, sense)
+        if isinstance(t, ast.Compare) and len(t.ops) == 1 and isinstance(t.ops[0], (ast.Is, ast.IsNot)) and isinstance(t.left, ast.Name) and isinstance(t.comparators[0], ast.Name):
+            return (t.left.id, t.comparators[0].id, sense if isinstance(t.ops[0], ast.Is) else not sense)
+        return None
+
+    def innermost(st):
+        """(list holding the deciding `if` as its last statement) for a chain of with / try-finally wrappers, else None"""
+        cur = st
+        for _ in range(4):
+            if isinstance(cur, (ast.With, ast.AsyncWith)):
+                lst = cur.body
+            elif isinstance(cur, ast.Try) and cur.finalbody and not cur.handlers and not cur.orelse:
+                lst = cur.body
+            else:
+                return None
+            if not lst:
+                return None
+            if isinstance(lst[-1], ast.If):
+                return lst
+            cur = lst[-1]
+        return None
+
+    def arm_value(arm, v, sent):
+        """outcome of `v` (truthiness) or `v is sent` at the end of the arm: True / False / None (unknown)"""
+        binds = [x for x in arm if isinstance(x, ast.Assign) and len(x.targets) == 1 and isinstance(x.targets[0], ast.Name) and x.targets[0].id == v]
+        deep = [x for st in arm for x in ast.walk(st) if isinstance(x, ast.Name) and x.id == v and isinstance(x.ctx, (ast.Store, ast.Del))]
+        if len(binds) != 1 or len(deep) != 1:
+            return None
+        val = binds[0].value
+        if sent is None:
+            if isinstance(val, ast.Constant):
+                return bool(val.value)
+            return None
+        if isinstance(val, ast.Name) and val.id == sent:
+            return True
+        if isinstance(val, ast.Constant):
+            return False
+        if sentinel_ok(sent) and not any(isinstance(x, ast.Name) and x.id == sent for x in ast.walk(val)):
+            return False
+        return None
+
+    def block(body):
+        i = 0
+        while i + 1 < len(body):
+            st, nxt = body[i], body[i + 1]
+            done = False
+            if isinstance(nxt, ast.If):
+                pt = parse_test(nxt.test)
+                lst = innermost(st)
+                if pt is not None and lst is not None and (leaving(nxt.body) != leaving(nxt.orelse) or (leaving(nxt.body) and not nxt.orelse)):
+                    v, sent, sense = pt
+                    j = lst[-1]
+                    tv = fv = None
+                    rebinds = [x for arm in (j.body, j.orelse) for s2 in arm for x in ast.walk(s2) if isinstance(x, ast.Name) and x.id == v and isinstance(x.ctx, (ast.Store, ast.Del))]
+                    flagdef = None
+                    if sent is None and len(lst) >= 2 and not rebinds:
+                        p0 = lst[-2]
+                        if isinstance(p0, ast.Assign) and len(p0.targets) == 1 and isinstance(p0.targets[0], ast.Name) and p0.targets[0].id == v \
+                                and not any(isinstance(x, (ast.Call, ast.Await, ast.NamedExpr, ast.Yield, ast.YieldFrom)) for x in ast.walk(p0.value)):
+                            if ast.dump(p0.value) == ast.dump(j.test):
+                                tv, fv, flagdef = True, False, p0
+                            elif isinstance(p0.value, ast.UnaryOp) and isinstance(p0.value.op, ast.Not) and ast.dump(p0.value.operand) == ast.dump(j.test):
+                                tv, fv, flagdef = False, True, p0
+                    if tv is None:
+                        tv, fv = arm_value(j.body, v, sent), arm_value(j.orelse, v, sent)
+                    if tv is not None and fv is not None and tv != fv:
+                        # outcome of the test `nxt.test` in each arm
+                        t_true_arm = j.body if (tv == sense) else j.orelse      # arm in which nxt.test comes out true
+                        t_false_arm = j.orelse if (tv == sense) else j.body
+                        lv, other = (nxt.body, nxt.orelse) if leaving(nxt.body) else (nxt.orelse, nxt.body)
+                        target = t_true_arm if lv is nxt.body else t_false_arm
+                        if target is j.orelse and not j.orelse:
+                            pass  # (needs an else arm to put the statement into)
+                        reads = [x for x in ast.walk(func_node) if isinstance(x, ast.Name) and x.id == v and isinstance(x.ctx, ast.Load)]
+                        target.extend(lv)
+                        body[i + 1:i + 2] = list(other)
+                        if flagdef is not None and len(reads) == 1:
+                            lst.remove(flagdef)
+                        changed[0] = True
+                        done = True
+            if not done:
+                i += 1
+        for st in body:
+            for fld in ("body", "orelse", "finalbody"):
+                sub = getattr(st, fld, None)
+                if isinstance(sub, list) and sub and isinstance(sub[0], ast.stmt) and not isinstance(st, (ast.FunctionDef, ast.AsyncFunctionDef, ast.ClassDef)):
+                    block(sub)
+            if isinstance(st, ast.Try):
+                for h in st.handlers:
+                    block(h.body)
+    # cheap pre-check
+    if not any(isinstance(x, (ast.With, ast.Try)) for x in walk_own(func.node)):
+        return func
+    func_node = _copy(func.node)
+    block(func_node.body)
+    if not changed[0]:
+        return func
+    ast.fix_missing_locations(func_node)
+    nf = Func(func.qual, func_node, func.module, func.cls, func.parent)
+    nf.inlined_from = list(getattr(func, "inlined_from", []))
+    return nf
+
+
+def attributes_from_constant_getattr(func):
+    """`getattr(x, "name")` (two arguments, a constant identifier) is `x.name`.  Exact by the language definition."""
+    def hit(c):
+        return isinstance(c, ast.Call) and isinstance(c.func, ast.Name) and c.func.id == "getattr" and len(c.args) == 2 and not c.keywords \
+            and isinstance(c.args[1], ast.Constant) and isinstance(c.args[1].value, str) and c.args[1].value.isidentifier() and not c.args[1].value.startswith("__")
+    if not any(hit(x) for x in walk_own(func.node)) or "getattr" in _bound_names(func.node) or "getattr" in func.params or "getattr" in func.module.globals or "getattr" in func.module.functions:
+        return func
+    node = _copy(func.node)
+
+    class G(ast.NodeTransformer):
+        def visit_FunctionDef(self, n):
+            if n is node:
+                self.generic_visit(n)
+            return n
+        visit_AsyncFunctionDef = visit_FunctionDef
+
+        def visit_Lambda(self, n):
+            return n
+
+        def visit_Call(self, n):
+            self.generic_visit(n)
+            if hit(n):
+                return ast.copy_location(ast.Attribute(value=n.args[0], attr=n.args[1].value, ctx=ast.Load()), n)
+            return n
+    G().visit(node)
+    ast.fix_missing_locations(node)
+    nf = Func(func.qual, node, func.module, func.cls, func.parent)
+    nf.inlined_from = list(getattr(func, "inlined_from", []))
+    return nf
+
+
+def drop_self_assignments(func):
+    """`x = x` for a plain local name (left behind when an inlined helper returns its own parameter): no effect."""
+    def is_self(st):
+        return isinstance(st, ast.Assign) and len(st.targets) == 1 and isinstance(st.targets[0], ast.Name) and isinstance(st.value, ast.Name) and st.targets[0].id == st.value.id
+    if not any(is_self(x) for x in walk_own(func.node)):
+        return func
+    node = _copy(func.node)
+
+    def block(body, must_keep_one):
+        out = []
+        for st in body:
+            if is_self(st):
+                continue
+            for fld in ("body", "orelse", "finalbody"):
+                sub = getattr(st, fld, None)
+                if isinstance(sub, list) and sub and isinstance(sub[0], ast.stmt) and not isinstance(st, (ast.FunctionDef, ast.AsyncFunctionDef, ast.ClassDef)):
+                    setattr(st, fld, block(sub, fld == "body"))
+            if isinstance(st, ast.Try):
+                for h in st.handlers:
+                    h.body = block(h.body, True)
+            out.append(st)
+        if not out and must_keep_one:
+            out = [ast.Pass()]
+        return out
+    node.body = block(node.body, True)
+    ast.fix_missing_locations(node)
+    nf = Func(func.qual, node, func.module, func.cls, func.parent)
+    nf.inlined_from = list(getattr(func, "inlined_from", []))
+    return nf
+
+
+def split_tuple_assignments(func):
+    """`a, b = x, y` with plain names / constants on the right that are none of the targets -> `a = x; b = y`
+    (no element of the right side can be changed by the earlier stores).  Exact."""
+    def ok(st):
+        if not (isinstance(st, ast.Assign) and len(st.targets) == 1 and isinstance(st.targets[0], ast.Tuple) and isinstance(st.value, ast.Tuple)):
+            return False
+        ts, vs = st.targets[0].elts, st.value.elts
+        if len(ts) != len(vs) or not all(isinstance(t, ast.Name) for t in ts) or not all(isinstance(v, (ast.Name, ast.Constant)) for v in vs):
+            return False
+        tn = {t.id for t in ts}
+        return len(tn) == len(ts) and not any(isinstance(v, ast.Name) and v.id in tn for v in vs)
+    if not any(ok(x) for x in walk_own(func.node)):
+        return func
+    node = _copy(func.node)
+
+    def block(body):
+        out = []
+        for st in body:
+            if ok(st):
+                for t, v in zip(st.targets[0].elts, st.value.elts):
+                    out.append(ast.copy_location(ast.Assign(targets=[t], value=v, type_comment=None), st))
+                continue
+            for fld in ("body", "orelse", "finalbody"):
+                sub = getattr(st, fld, None)
+                if isinstance(sub, list) and sub and isinstance(sub[0], ast.stmt) and not isinstance(st, (ast.FunctionDef, ast.AsyncFunctionDef, ast.ClassDef)):
+                    setattr(st, fld, block(sub))
+            if isinstance(st, ast.Try):
+                for h in st.handlers:
+                    h.body = block(h.body)
+            out.append(st)
+        return out
+    node.body = block(node.body)
+    ast.fix_missing_locations(node)
+    nf = Func(func.qual, node, func.module, func.cls, func.parent)
+    nf.inlined_from = list(getattr(func, "inlined_from", []))
+    return nf
+
+
+def comprehensions_from_append_loops(func, keep_names=()):
+    """`acc = []` immediately followed by `for x in XS: acc.append(E)` (optionally under one `if C:`), where neither acc
+    nor the reference tree's names are involved otherwise: `acc = [E for x in XS if C]`.  Exact when the loop variable is
+    not read after the loop (a comprehension does not leak it) and E / C / XS do not mention acc."""
+    keep = set(keep_names)
+
+    def match(a, b, after):
+        if not (isinstance(a, ast.Assign) and len(a.targets) == 1 and isinstance(a.targets[0], ast.Name) and isinstance(a.value, ast.List) and not a.value.elts):
+            return None
+        acc = a.targets[0].id
+        if acc in keep or not (isinstance(b, ast.For) and not b.orelse and isinstance(b.target, ast.Name) and len(b.body) == 1):
+            return None
+        inner, cond = b.body[0], None
+        if isinstance(inner, ast.If) and not inner.orelse and len(inner.body) == 1:
+            cond, inner = inner.test, inner.body[0]
+        if not (isinstance(inner, ast.Expr) and isinstance(inner.value, ast.Call) and isinstance(inner.value.func, ast.Attribute) and inner.value.func.attr == "append"
+                and isinstance(inner.value.func.value, ast.Name) and inner.value.func.value.id == acc and len(inner.value.args) == 1 and not inner.value.keywords):
+            return None
+        elt = inner.value.args[0]
+        for e in [elt, b.iter] + ([cond] if cond is not None else []):
+            if any(isinstance(x, ast.Name) and x.id == acc for x in ast.walk(e)) or any(isinstance(x, (ast.Yield, ast.YieldFrom, ast.Await, ast.NamedExpr)) for x in ast.walk(e)):
+                return None
+        lv = b.target.id
+        inside = {id(x) for x in ast.walk(b)}
+        if lv in keep or any(isinstance(x, ast.Name) and x.id == lv and id(x) not in inside for st in after for x in ast.walk(st)):
+            return None
+        comp = ast.ListComp(elt=elt, generators=[ast.comprehension(target=b.target, iter=b.iter, ifs=[cond] if cond is not None else [], is_async=0)])
+        return ast.copy_location(ast.Assign(targets=a.targets, value=ast.copy_location(comp, b), type_comment=None), a)
+    hit = [False]
+
+    def block(body, after_outer):
+        out = []
+        i = 0
+        while i < len(body):
+            st = body[i]
+            if i + 1 < len(body):
+                m = match(st, body[i + 1], body[i + 2:] + after_outer)
+                if m is not None:
+                    out.append(m)
+                    hit[0] = True
+                    i += 2
+                    continue
+            for fld in ("body", "orelse", "finalbody"):
+                sub = getattr(st, fld, None)
+                if isinstance(sub, list) and sub and isinstance(sub[0], ast.stmt) and not isinstance(st, (ast.FunctionDef, ast.AsyncFunctionDef, ast.ClassDef)):
+                    # inside a loop the statements before also run "after" (next iteration): be conservative
+                    aft = body[i + 1:] + after_outer + ([st] if isinstance(st, (ast.For, ast.While)) else [])
+                    setattr(st, fld, block(sub, aft))
+            if isinstance(st, ast.Try):
+                for h in st.handlers:
+                    h.body = block(h.body, body[i + 1:] + after_outer)
+            out.append(st)
+            i += 1
+        return out
+    if not any(isinstance(x, ast.For) for x in walk_own(func.node)):
+        return func
+    node = _copy(func.node)
+    node.body = block(node.body, [])
+    if not hit[0]:
+        return func
+    ast.fix_missing_locations(node)
+    nf = Func(func.qual, node, func.module, func.cls, func.parent)
+    nf.inlined_from = list(getattr(func, "inlined_from", []))
+    return nf
+
+
+def loops_from_primed(func):
+    """`x = E; while x: BODY; x = E` (the same E, x bound nowhere else in the loop, no continue, no else) ->
+    `while True: x = E; if not x: break; BODY`.  Exact: E and the test are evaluated at the same points."""
+    def match(a, w):
+        if not (isinstance(a, ast.Assign) and len(a.targets) == 1 and isinstance(a.targets[0], ast.Name) and isinstance(w, ast.While) and not w.orelse
+                and isinstance(w.test, ast.Name) and w.test.id == a.targets[0].id and len(w.body) >= 2):
+            return False
+        x = a.targets[0].id
+        last = w.body[-1]
+        if not (isinstance(last, ast.Assign) and len(last.targets) == 1 and isinstance(last.targets[0], ast.Name) and last.targets[0].id == x and ast.dump(last.value) == ast.dump(a.value)):
+            return False
+        if any(isinstance(b, ast.Continue) for b in _own_breaks(w)):
+            return False
+        for st in w.body[:-1]:
+            if any(isinstance(n, ast.Name) and n.id == x and isinstance(n.ctx, (ast.Store, ast.Del)) for n in ast.walk(st)):
+                return False
+        return True
+    found = [False]
+
+    def block(body):
+        out = []
+        i = 0
+        while i < len(body):
+            st = body[i]
+            if i + 1 < len(body) and match(st, body[i + 1]):
+                w = body[i + 1]
+                x = st.targets[0].id
+                g0 = ast.copy_location(ast.If(test=ast.copy_location(ast.UnaryOp(op=ast.Not(), operand=ast.copy_location(ast.Name(id=x, ctx=ast.Load()), w.test)), w.test),
+                                              body=[ast.copy_location(ast.Break(), w)], orelse=[]), w)
+                w.body = [st, g0] + block(w.body[:-1])
+                w.test = ast.copy_location(ast.Constant(value=True), w.test)
+                out.append(w)
+                found[0] = True
+                i += 2
+                continue
+            for fld in ("body", "orelse", "finalbody"):
+                sub = getattr(st, fld, None)
+                if isinstance(sub, list) and sub and isinstance(sub[0], ast.stmt) and not isinstance(st, (ast.FunctionDef, ast.AsyncFunctionDef, ast.ClassDef)):
+                    setattr(st, fld, block(sub))
+            if isinstance(st, ast.Try):
+                for h in st.handlers:
+                    h.body = block(h.body)
+            out.append(st)
+            i += 1
+        return out
+    if not any(isinstance(x, ast.While) for x in walk_own(func.node)):
+        return func
+    node = _copy(func.node)
+    node.body = block(node.body)
+    if not found[0]:
+        return func
+    ast.fix_missing_locations(node)
+    nf = Func(func.qual, node, func.module, func.cls, func.parent)
+    nf.inlined_from = list(getattr(func, "inlined_from", []))
+    return nf
+
+
+def _nnf(e, neg):
+    """Negations pushed to the leaves of the and/or structure (as a *test*: `not not x` and `x` decide alike; comparisons
+    are left as they are, under a `not` where needed - no assumption about the operands)."""
+    if isinstance(e, ast.UnaryOp) and isinstance(e.op, ast.Not):
+        return _nnf(e.operand, not neg)
+    if isinstance(e, ast.BoolOp):
+        op = e.op
+        if neg:
+            op = ast.Or() if isinstance(e.op, ast.And) else ast.And()
+        vals = []
+        for v in e.values:
+            x = _nnf(v, neg)
+            if isinstance(x, ast.BoolOp) and type(x.op) is type(op):
+                vals.extend(x.values)
+            else:
+                vals.append(x)
+        return ast.copy_location(ast.BoolOp(op=op, values=vals), e)
+    if neg:
+        return ast.copy_location(ast.UnaryOp(op=ast.Not(), operand=e), e)
+    return e
+
+
+def loops_from_leading_breaks(func):
+    """`while True:` (no else) whose body starts with `if X: break` (no else arm): the guard is the loop test.  Several
+    leading guards chain with `and`.  Exact: the test is evaluated at the same points, and a loop without else clause
+    behaves the same whether it is left by break or by its test."""
+    def is_true(t):
+        return isinstance(t, ast.Constant) and t.value is True
+
+    def guard(st):
+        return isinstance(st, ast.If) and not st.orelse and len(st.body) == 1 and isinstance(st.body[0], ast.Break)
+    if not any(isinstance(w, ast.While) and is_true(w.test) and not w.orelse and w.body and guard(w.body[0]) for w in walk_own(func.node)):
+        return func
+    node = _copy(func.node)
+    for w in walk_own(node):
+        if isinstance(w, ast.While) and is_true(w.test) and not w.orelse:
+            tests = []
+            while len(w.body) > 1 and guard(w.body[0]):
+                g0 = w.body.pop(0)
+                tests.append(ast.copy_location(ast.UnaryOp(op=ast.Not(), operand=g0.test), g0.test))
+            if tests:
+                t = tests[0] if len(tests) == 1 else ast.copy_location(ast.BoolOp(op=ast.And(), values=tests), tests[0])
+                w.test = _nnf(t, False)
     ast.fix_missing_locations(node)
     nf = Func(func.qual, node, func.module, func.cls, func.parent)
     nf.inlined_from = list(getattr(func, "inlined_from", []))
